@@ -252,3 +252,104 @@ pub fn endless_head(r: &mut Rng, n: usize) -> Vec<u8> {
     s.truncate(n.max(20));
     s.into_bytes()
 }
+
+/// A request written to match one `[http:request]` signature of the bundled database: the listed headers in
+/// the listed order (optional ones sometimes left out) with the listed value substrings, the expected
+/// User-Agent substring, the listed HTTP version. Exercises the matching, label and diagnosis paths, which a
+/// random header order almost never reaches.
+pub fn request_from_signature(r: &mut Rng) -> Option<Msg> {
+    let text = crate::sut::bundled_text();
+    let mut sigs: Vec<&str> = vec![];
+    let mut inside = false;
+    for line in text.lines() {
+        let t = line.trim_start();
+        if t.starts_with('[') {
+            inside = t.starts_with("[http:request]");
+        } else if inside && t.starts_with("sig") {
+            if let Some(eq) = t.find('=') {
+                sigs.push(t[eq + 1..].trim());
+            }
+        }
+    }
+    if sigs.is_empty() {
+        return None;
+    }
+    let sig = sigs[r.usize_below(sigs.len())];
+    // ver:horder:habsent:expsw  (horder values may contain ':' inside [...])
+    let mut fields: Vec<String> = vec![];
+    let (mut depth, mut cur) = (0i32, String::new());
+    for ch in sig.chars() {
+        match ch {
+            '[' => {
+                depth += 1;
+                cur.push(ch);
+            }
+            ']' => {
+                depth -= 1;
+                cur.push(ch);
+            }
+            ':' if depth == 0 && fields.len() < 3 => {
+                fields.push(std::mem::take(&mut cur));
+            }
+            _ => cur.push(ch),
+        }
+    }
+    fields.push(cur);
+    if fields.len() != 4 {
+        return None;
+    }
+    let ver = match fields[0].as_str() {
+        "0" => "HTTP/1.0",
+        "1" => "HTTP/1.1",
+        _ => *r.pick(&["HTTP/1.1", "HTTP/1.1", "HTTP/1.0"]),
+    };
+    let expsw = fields[3].clone();
+    // split horder on commas outside brackets
+    let mut items: Vec<String> = vec![];
+    let (mut depth, mut cur) = (0i32, String::new());
+    for ch in fields[1].chars() {
+        match ch {
+            '[' => {
+                depth += 1;
+                cur.push(ch);
+            }
+            ']' => {
+                depth -= 1;
+                cur.push(ch);
+            }
+            ',' if depth == 0 => items.push(std::mem::take(&mut cur)),
+            _ => cur.push(ch),
+        }
+    }
+    if !cur.is_empty() {
+        items.push(cur);
+    }
+    let mut head = format!("GET /{} {}\r\n", token(r, 6), ver);
+    for it in items {
+        let (optional, it) = match it.strip_prefix('?') {
+            Some(x) => (true, x.to_string()),
+            None => (false, it),
+        };
+        if optional && r.chance(1, 2) {
+            continue;
+        }
+        let (name, want) = match it.find("=[") {
+            Some(p) => (it[..p].to_string(), Some(it[p + 2..].trim_end_matches(']').to_string())),
+            None => (it.clone(), None),
+        };
+        let value = if name.eq_ignore_ascii_case("User-Agent") {
+            // only the expected substring, or wrapped the way browsers do
+            if r.chance(1, 2) { format!("{}1.0", expsw) } else { format!("Mozilla/5.0 (X11; Linux x86_64) {}1.0", expsw) }
+        } else if let Some(w) = want {
+            if r.chance(1, 2) { w } else { format!("{}{}{}", if r.chance(1, 2) { "text/html" } else { "" }, w, if r.chance(1, 2) { "0.5" } else { "" }) }
+        } else if name.eq_ignore_ascii_case("Host") {
+            format!("{}.example.test", token(r, 6))
+        } else {
+            token(r, 6)
+        };
+        head.push_str(&format!("{}: {}\r\n", name, value));
+    }
+    head.push_str("\r\n");
+    let head_len = head.len();
+    Some(Msg { bytes: head.into_bytes(), head_len })
+}
